@@ -30,6 +30,12 @@ CLAIMED = {
  "C06": dict(cat="model_checking", technique="TLA+ model checking (SluPipe with zero pivots: info = min over all zero-pivot columns for every interleaving) + trace validation of singular runs + SluApi history validation",
              text="TLC checks on all small forests that the reported info is the minimum zero-pivot column whatever the schedule; recorded factorizations with 1..3 exactly-zero columns in different subtrees are validated event by event (each worker's Exit carries its own minimum, Wrap the global one) and the expected position in A*Pc order is compared; both drivers are driven through singular histories (B / X untouched, outputs inspectable and destroyable).",
              note="Explicit zeros only (structurally nonsingular patterns); structurally singular inputs are the recorded finding F3.", ref="3.2, 3.6, 5 C06"),
+ "C05": dict(cat="model_checking", technique="TLA+ specification as oracle (SluOrder!BoundOK: symbolic elimination over all pivot sequences) + SluPipeTrace!SlotBound on recorded ASan/UBSan runs",
+             text="TLC evaluates on the records of the real sp_colorder that the predicted column counts dominate |L(:,j)| for every pivot sequence (exhaustive on small patterns); every recorded factorization, built with AddressSanitizer and UBSan, is validated against SluPipeTrace whose SlotBound invariant checks each unchecked bump of the lusup slot pointer against the reserved slot; too-small U/L-subscript estimates must end in the library's diagnostic.",
+             note="Bound claim for structurally nonsingular patterns (F3 otherwise); ASan cannot see overflow inside one malloc block -- SlotBound covers that; F14 (dynamic mode) is a recorded finding.", ref="3.3, 3.5, 5 C05"),
+ "C10": dict(cat="model_checking", technique="TLA+ specification as oracle (SluOrder!OrderOK evaluated by TLC on every record of the real get_perm_c/sp_colorder), exhaustive over small patterns",
+             text="Declarative TLA+ definitions of permutation, A*Pc view, column elimination tree (symbolic elimination of the column intersection graph), postorder and partition are evaluated by TLC on the output of the real routines for every 0/1 pattern with n<=3 (n<=4 thorough), all five ordering options, both modes, plus random patterns to n=16.",
+             note="Exhaustive only for n<=3/4; set-based TLA+ definitions limit checked sizes to n<=16.", ref="3.1, 4.5, 5 C10"),
 }
 NA_REASON = "check not built yet in this session (planned, see DESIGN.md section 5); not claimed"
 
